@@ -208,12 +208,12 @@ def _do(sut: SUT, op: dict) -> Any:
         return _styled(sut, "target_index", [("qubits", op["qubits"]), ("channel", op["ch"])], [])
     if k == "add":
         pulse = build_pulse(op["pulse"])
-        if "protocol" in op and sut.call_style is None:
+        if "protocol" in op and getattr(sut, "call_style", None) is None:
             return seq.add(pulse, op["ch"], op["protocol"])
         return _styled(sut, "add", [("pulse", pulse), ("channel", op["ch"])], [("protocol", op["protocol"])] if "protocol" in op else [])
     if k == "add_dmm_detuning":
         w = build_wf(op["wf"])
-        if "protocol" in op and sut.call_style is None:
+        if "protocol" in op and getattr(sut, "call_style", None) is None:
             return seq.add_dmm_detuning(w, op["ch"], op["protocol"])
         return _styled(sut, "add_dmm_detuning", [("waveform", w), ("dmm_name", op["ch"])], [("protocol", op["protocol"])] if "protocol" in op else [])
     if k == "delay":
